@@ -504,3 +504,130 @@ theorem iter_sync (env : Env) (P : Prop) (free : Bool) (s : Src) (d : Dbg) (w : 
       · exact ⟨rfl, hn.1, hn.2.1, hn.2.2⟩
 
 end Lace.C09IO
+
+namespace Lace.C09IO
+open Lace Lace.Dbg Lace.Cmd Lace.DbgIO Lace.DbgProofs Lace.C14
+
+/-! ### whole runs -/
+
+theorem iter_detached_att {env : Env} {d d1 : Dbg} {m m1 : Machine} {w w1 : World} {att : Bool}
+    {e : Option Word} (h : iter env false d m w = .cont att d1 m1 w1 e) : att = false := by
+  unfold iter at h
+  simp only [Bool.false_eq_true, if_false] at h
+  split at h
+  · cases h
+  · split at h
+    · cases h
+    · cases h
+    · simp only [execOne] at h
+      split at h
+      · simp only [Iter.cont.injEq] at h; exact h.1.symm
+      · cases h
+      · cases h
+
+/-- Detached, the on-demand loop *is* the pre-parsed loop (which is the plain loop,
+`Lace.C09.detached_eq_plain`). -/
+theorem runLoopIO_detached (env : Env) : ∀ (n : Nat) (s : Src) (d : Dbg) (m : Machine) (w : World)
+    (ex : List Word), runLoopIO env n false s d m w ex = (s, runLoop env n false d m w ex)
+  | 0, _, _, _, _, _ => rfl
+  | n + 1, s, d, m, w, ex => by
+    unfold runLoopIO runLoop
+    simp only [iterIO, Bool.false_eq_true, if_false]
+    cases hit : iter env false d m w with
+    | cont att d1 m1 w1 e =>
+      have := iter_detached_att hit
+      subst this
+      exact runLoopIO_detached env n s d1 m1 w1 _
+    | done att d1 m1 w1 => rfl
+    | exit c att d1 m1 w1 e => rfl
+    | panic e => rfl
+
+/-- What the two runs give, in relation: the same ending, the same final machine, the same
+executed addresses, the same debugger record up to the field `cmds` (which the on-demand model
+does not use), the same program output; and the same remaining input once the debugger is gone.
+(While it is attached the on-demand world still holds the unread part of the script.) -/
+def RelRun : Src × DbgRun → DbgRun → Prop
+  | (_, .done att d m w ex), .done att' d' m' w' ex' =>
+    att = att' ∧ setCmds [] d = setCmds [] d' ∧ m = m' ∧ w = w' ∧ ex = ex'
+  | (_, .exit c att d m w ex), .exit c' att' d' m' w' ex' =>
+    c = c' ∧ att = att' ∧ setCmds [] d = setCmds [] d' ∧ m = m' ∧ ex = ex' ∧
+      w.outRev = w'.outRev ∧ (att = false → w = w')
+  | (_, .fuel att d m w ex), .fuel att' d' m' w' ex' =>
+    att = att' ∧ setCmds [] d = setCmds [] d' ∧ m = m' ∧ ex = ex' ∧
+      w.outRev = w'.outRev ∧ (att = false → w = w')
+  | (_, .panic e), .panic e' => e = e'
+  | _, _ => False
+
+theorem RelRun.refl (s : Src) (r : DbgRun) : RelRun (s, r) r := by
+  cases r <;> simp [RelRun]
+
+theorem runLoop_sync (env : Env) (P : Prop) (free : Bool) :
+    ∀ (n : Nat) (s : Src) (d : Dbg) (w : World) (d' : Dbg) (w' : World) (m : Machine) (ex : List Word),
+      Sync P free s d w d' w' →
+      (free = true ∨ ∀ x ∈ attachedWords env n true s d m w, readsInput x = false) →
+      RelRun (runLoopIO env n true s d m w ex) (runLoop env n true d' m w' ex)
+  | 0, s, d, w, d', w', m, ex, hs, _ => by
+    obtain ⟨ta, tb, h⟩ := hs
+    simp only [runLoopIO, runLoop, RelRun, true_and, Bool.true_eq_false, false_implies, and_true]
+    exact ⟨by rw [h.dbg]; rfl, h.out⟩
+  | n + 1, s, d, w, d', w', m, ex, hs, hr => by
+    have hr1 : free = true ∨ ∀ x ∈ (attachedWord env s d m w).toList, readsInput x = false := by
+      rcases hr with h | h
+      · exact .inl h
+      · right; intro x hx; apply h; simp only [attachedWords]; exact List.mem_append_left _ hx
+    have hi := iter_sync env P free s d w d' w' m hs hr1
+    unfold runLoopIO runLoop
+    generalize hio : iterIO env true s d m w = rio at hi
+    obtain ⟨s1, it⟩ := rio
+    generalize iter env true d' m w' = it' at hi
+    cases it with
+    | cont att d1 m1 w1 e =>
+      cases it' with
+      | cont att' d1' m1' w1' e' =>
+        cases att <;> cases att' <;> simp only [RelIter] at hi <;> try exact hi.elim
+        · obtain ⟨h1, h2, h3, h4⟩ := hi
+          subst h1 h2 h3 h4
+          simp only
+          rw [runLoopIO_detached]
+          exact RelRun.refl _ _
+        · obtain ⟨h1, h2, h3⟩ := hi
+          subst h1 h2
+          simp only
+          apply runLoop_sync env P free n s1 d1 w1 d1' w1' m1 _ h3
+          rcases hr with h | h
+          · exact .inl h
+          · right; intro x hx; apply h
+            simp only [attachedWords, hio]
+            exact List.mem_append_right _ hx
+      | done _ _ _ _ => cases att <;> exact hi.elim
+      | exit _ _ _ _ _ _ => cases att <;> exact hi.elim
+      | panic _ => cases att <;> exact hi.elim
+    | done att d1 m1 w1 =>
+      cases it' with
+      | done att' d1' m1' w1' =>
+        simp only [RelIter] at hi
+        obtain ⟨h1, h2, h3, h4⟩ := hi
+        subst h1 h2 h3 h4
+        simp [RelRun]
+      | cont _ _ _ _ _ => exact hi.elim
+      | exit _ _ _ _ _ _ => exact hi.elim
+      | panic _ => exact hi.elim
+    | exit c att d1 m1 w1 e =>
+      cases it' with
+      | exit c' att' d1' m1' w1' e' =>
+        simp only [RelIter] at hi
+        obtain ⟨h1, h2, h3, h4, h5, h6, h7⟩ := hi
+        subst h1 h2 h3 h5 h6
+        simp only [RelRun, true_and, Bool.true_eq_false, false_implies, and_true]
+        exact ⟨by rw [h4]; rfl, h7⟩
+      | cont _ _ _ _ _ => exact hi.elim
+      | done _ _ _ _ => exact hi.elim
+      | panic _ => exact hi.elim
+    | panic e =>
+      cases it' with
+      | panic e' => simpa [RelIter, RelRun] using hi
+      | cont _ _ _ _ _ => exact hi.elim
+      | done _ _ _ _ => exact hi.elim
+      | exit _ _ _ _ _ _ => exact hi.elim
+
+end Lace.C09IO
